@@ -351,7 +351,7 @@ class Contract:
                  inline=(), inline_only=False, slice=None, class_attrs=None, writes=(), note="", shape_bound=4,
                  native=None, name=None, self_spec=None, max_shapes=60, crosscheck=True, refute=True, assumed=False,
                  native_call=None, cases_filter=None, gen=None, native_ok=True, compare_native=None, slice_note=None,
-                 not_decided=(), lemmas=None, ghost_after=None, ghost_on=(), finite=None, locate=None, curry=(), finite_native=None, lib=None, may_raise=(), abstract_nl=True, abstract_real=False, overrides=None, register=True, sum_axioms=False, writable_attrs=None, pre_execute=None, reads_allowed=None, native_slice=False, axioms=None):
+                 not_decided=(), lemmas=None, ghost_after=None, ghost_on=(), finite=None, locate=None, curry=(), finite_native=None, lib=None, may_raise=(), abstract_nl=True, abstract_real=False, overrides=None, register=True, sum_axioms=False, writable_attrs=None, pre_execute=None, reads_allowed=None, native_slice=False, axioms=None, bounded=None):
         self.target = target
         self.props = list(props)
         self.params = dict(params or {})
@@ -373,6 +373,7 @@ class Contract:
         self.refute = refute
         self.assumed = assumed            # contract used at call sites but NOT verified here (listed as assumed)
         self.native_call = native_call    # how replay calls the real code (default: module attribute lookup)
+        self.bounded = bounded            # text: what about this contract is only a bounded / sampled check (reported, never counted as proved)
         self.axioms = axioms              # callable -> list of z3 formulas: axioms of an assumed library theory used by this contract
         self.native_slice = native_slice  # replay / sampling executes the statement slice itself (compiled from the real source)
         self.cases_filter = cases_filter
